@@ -235,6 +235,19 @@ func (e *Engine) Exec(step int, cmd *Cmd) {
 		}
 	}
 	e.exec1(step, tw, true)
+	if e.stop && e.Twin == "sdk" && len(e.res.Fails) == 0 && e.res.Quiet == "" && len(e.res.Steps) >= 2 {
+		// the twin's answer broke another property's rule (each side is also
+		// checked against the model): if the two SDKs also disagree with each
+		// other, that is C17's violation and is reported as such
+		a, b := e.res.Steps[len(e.res.Steps)-2], e.res.Steps[len(e.res.Steps)-1]
+		if !a.Twin && b.Twin && !a.Skipped && !b.Skipped {
+			if d := outcomeDiff(cmd, a.Out, b.Out); d != "" {
+				e.res.OtherRule = ""
+				e.res.Fails = []Fail{{"C17.eq", fmt.Sprintf("%s through %s and %s differ: %s", cmd.Op, e.W.SDKs[cmd.C], e.W.SDKs[cmd.C+1], d)}}
+				e.res.FailStep, e.res.FailCmd = step, cmd
+			}
+		}
+	}
 	if e.stop {
 		return
 	}
